@@ -11,7 +11,7 @@ use rosu_pp::{Beatmap, Performance};
 use serde_json::{json, Value};
 
 use crate::{
-    mapgen::{gen_map, gen_shape, MapText},
+    mapgen::{gen_map, gen_shape, shift_times, MapText},
     prng::{fnv, Rng},
     runner::{guard, panic_site, Engine, Stats, Tier, Violation},
     spec::{gen_diff, gen_score, mode_idx, mode_name, DiffSpec, ModsSpec, ScoreSpec, MODES},
@@ -579,6 +579,7 @@ fn gen_storm(rng: &mut Rng, tier: Tier) -> ConcCase {
     // a third of the storms consist of cheap whole-map queries (bpm, attribute builder): short calls
     // overlap only if they are issued together many times
     let cheap = rng.chance(0.33);
+    let long_break = !cheap && rng.chance(0.35);
     let mut maps = Vec::new();
     for k in 0..n_maps {
         let mut sh = gen_shape(rng, 0, max_n);
@@ -591,6 +592,11 @@ fn gen_storm(rng: &mut Rng, tier: Tier) -> ConcCase {
             sh.tie_timing = true; // several tempos: bpm() has something to decide
         }
         let mut m = gen_map(rng, &sh);
+        if long_break {
+            // several hundred strain sections: long peak lists take other code paths than short ones
+            let at = 1 + rng.usize(sh.n.max(2) - 1);
+            shift_times(&mut m, at, *rng.pick(&[110_000.0, 180_000.0, 420_000.0]));
+        }
         let v = [1.0, 9.5, 5.0][k % 3];
         for l in m.pre.iter_mut() {
             for key in ["HPDrainRate", "OverallDifficulty", "ApproachRate"] {
@@ -604,7 +610,7 @@ fn gen_storm(rng: &mut Rng, tier: Tier) -> ConcCase {
     // mania has by far the most involved converter
     let target = 1 + rng.weighted(&[25, 25, 50]);
     // conversions alone are cheap enough to be repeated often: more overlapping windows per second
-    let convert_only = rng.chance(0.7);
+    let convert_only = !long_break && rng.chance(0.7);
     let diff = if rng.chance(0.5) { DiffSpec::default() } else { gen_diff(rng, target) };
     let jobs: Vec<Job> = (0..n_maps)
         .map(|m| Job {
@@ -612,6 +618,8 @@ fn gen_storm(rng: &mut Rng, tier: Tier) -> ConcCase {
                 (*rng.pick(&["bpm", "bpm", "attrs"])).to_owned()
             } else if convert_only {
                 "convert".to_owned()
+            } else if long_break {
+                (*rng.pick(&["calc", "calc", "strains"])).to_owned()
             } else {
                 (*rng.pick(&["convert", "convert", "calc", "strains"])).to_owned()
             },
